@@ -106,6 +106,8 @@ func (ev *evaluator) list(ns []Node) {
 			ev.runTemplate(f, n.Ctx, n, false)
 		case *Try:
 			ev.try(n)
+		case *RawFail:
+			ev.fail(n, n.Positioned, "raw failing statement %s", n.Src)
 		case *Return:
 			ev.eval(n.E, n)
 			if ev.discard == 0 {
